@@ -46,11 +46,13 @@ Section Routing.
   Variable A : Type.
   Variable f : nat -> A.
   Variable truthy : A -> bool.
+  Variable byval : A -> bool.
 
   Definition faithful (ms : list string) (o : op) : Prop :=
     match route ms o with
-    | RSend rq _ => exists sv, serve_request F truthy (rqmap f rq) = Ok sv
+    | RSend rq _ => exists sv, serve_request F truthy byval (rqmap f rq) = Ok sv
                                /\ sv_act sv = direct truthy f o /\ sv_checks sv = direct_checks o
+                               /\ sv_reflect sv = serve_reflect F byval f o
     | RNoMethod => exists d n k, o = OSpecial d n k /\ smem d ms = false /\ slookup base_methods d = None
     | _ => False
     end.
@@ -60,24 +62,24 @@ Section Routing.
     unfold forwarded, faithful, route, getattribute_route. intros H.
     destruct (smem n local_attrs) eqn:L.
     - cbn [negb andb orb] in H. apply String.eqb_eq in H. subst n. cbn.
-      eexists. split; [reflexivity|]. split; reflexivity.
+      eexists. split; [reflexivity|]. repeat split; reflexivity.
     - cbn [negb andb] in H. rewrite orb_true_iff in H. destruct H as [H|H].
       2:{ apply String.eqb_eq in H. subst. discriminate. }
       unfold smem in H. cbn [existsb] in H. rewrite !orb_false_r in H.
       rewrite negb_orb in H. apply andb_true_iff in H. destruct H as [H1 H2].
       apply negb_true_iff in H1. apply negb_true_iff in H2. rewrite H1, H2.
-      cbn. eexists. split; [reflexivity|]. split; reflexivity.
+      cbn. eexists. split; [reflexivity|]. repeat split; reflexivity.
   Qed.
 
   Lemma faithful_setattr ms n : forwarded (OSetAttr n) = true -> faithful ms (OSetAttr n).
   Proof.
     unfold forwarded, faithful, route, setattr_route. intros H. apply negb_true_iff in H. rewrite H.
-    cbn. eexists. split; [reflexivity|]. split; reflexivity.
+    cbn. eexists. split; [reflexivity|]. repeat split; reflexivity.
   Qed.
   Lemma faithful_delattr ms n : forwarded (ODelAttr n) = true -> faithful ms (ODelAttr n).
   Proof.
     unfold forwarded, faithful, route, delattr_route. intros H. apply negb_true_iff in H. rewrite H.
-    cbn. eexists. split; [reflexivity|]. split; reflexivity.
+    cbn. eexists. split; [reflexivity|]. repeat split; reflexivity.
   Qed.
   Lemma not_local_facts d : smem d local_attrs = false ->
     smem d cmp_names = false /\ smem d ["__repr__"; "__str__"; "__hash__"; "__dir__"] = false /\ String.eqb d "__exit__" = false
@@ -104,14 +106,16 @@ Section Routing.
       unfold well_formed in Hw. rewrite N1, N2, N3 in Hw. apply negb_true_iff in Hw.
       unfold smem in Hw. cbn [slicers app existsb] in Hw. rewrite !orb_false_r in Hw.
       unfold make_method. destruct (String.eqb d "__call__") eqn:Ec.
-      + apply String.eqb_eq in Ec. subst d. cbn. eexists. split; [reflexivity|]. split; reflexivity.
+      + apply String.eqb_eq in Ec. subst d. cbn. eexists. split; [reflexivity|]. repeat split; try reflexivity.
+        cbn [sv_reflect]. unfold reflect_for. destruct (map f (positional nargs)) as [|x [|y l]]; reflexivity.
       + unfold smem. cbn [slicers existsb]. rewrite !orb_false_r.
         apply orb_false_iff in Hw. destruct Hw as [Hw1 Hw]. apply orb_false_iff in Hw. destruct Hw as [Hw2 Hw].
         apply orb_false_iff in Hw. destruct Hw as [Hw3 Hw4].
         rewrite Hw1, Hw2, Hw3, Hw4. cbn [orb map inst_method rqmap rq_args rq_handler wmap].
         unfold serve_request. cbn [slookup handler_bodies rq_handler String.eqb Ascii.eqb Bool.eqb andb]. cbn [rq_args denote].
         eexists. split; [reflexivity|]. cbn [sv_act sv_checks].
-        unfold direct_checks, direct. rewrite Ec, N1, N4, N5, N6, N7, N3. split; reflexivity.
+        unfold direct_checks, direct. rewrite Ec, N1, N4, N5, N6, N7, N3. split; [reflexivity|]. split; [reflexivity|].
+        cbn [sv_reflect serve_reflect]. destruct kw; reflexivity.
     - destruct (slookup base_methods d) as [[h args w]|] eqn:B.
       + pose proof (slookup_base_cases d _ B) as Hin. cbn [In] in Hin.
         unfold well_formed in Hw. unfold exit_ok in He.
@@ -119,12 +123,12 @@ Section Routing.
           try (cbn in Hf; discriminate Hf);
           try (cbn in B; injection B as <- <- <-; cbn in Hw;
                repeat (destruct nargs as [|nargs]; try discriminate Hw); destruct kw; try discriminate Hw;
-               cbn; eexists; split; [reflexivity|]; split; reflexivity).
+               cbn; eexists; split; [reflexivity|]; repeat split; reflexivity).
         * (* __exit__ *)
           cbn in B. injection B as <- <- <-. cbn in Hw.
           repeat (destruct nargs as [|nargs]; try discriminate Hw). destruct kw; try discriminate Hw.
           cbn in He. cbn.
-          eexists. split; [reflexivity|]. cbn [sv_act sv_checks]. split; [|reflexivity].
+          eexists. split; [reflexivity|]. cbn [sv_act sv_checks sv_reflect]. split; [|split; reflexivity].
           destruct (truthy (f 0%nat)); destruct (f_ctxexit_delivers F); cbn in He; try discriminate He; reflexivity.
         * contradiction.
       + exists d, nargs, kw. split; [reflexivity|]. split; [|exact B].
@@ -133,7 +137,7 @@ Section Routing.
   Qed.
 
   Lemma faithful_fetch ms : faithful ms OFetch.
-  Proof. unfold faithful. cbn. eexists. split; [reflexivity|]. split; reflexivity. Qed.
+  Proof. unfold faithful. cbn. eexists. split; [reflexivity|]. repeat split; reflexivity. Qed.
 
   Theorem routing_faithful ms o :
     forwarded o = true -> well_formed o = true -> exit_ok F (truthy (f 0%nat)) o = true -> faithful ms o.
@@ -160,8 +164,8 @@ Lemma local_names_not_written ms :
 Proof. reflexivity. Qed.
 
 (* the with statement's __exit__ call: unless the tree delivers the class, the target's __exit__ is told TypeError *)
-Lemma exit_refuted F ms A (f : nat -> A) truthy : f_ctxexit_delivers F = false -> truthy (f 0%nat) = true ->
-  exists rq w sv, route ms (OSpecial "__exit__" 3 []) = RSend rq w /\ serve_request F truthy (rqmap f rq) = Ok sv
+Lemma exit_refuted F ms A (f : nat -> A) truthy byval : f_ctxexit_delivers F = false -> truthy (f 0%nat) = true ->
+  exists rq w sv, route ms (OSpecial "__exit__" 3 []) = RSend rq w /\ serve_request F truthy byval (rqmap f rq) = Ok sv
     /\ sv_act sv = AExit TTypeError /\ direct truthy f (OSpecial "__exit__" 3 []) = AExit (TClass (f 0%nat)).
 Proof.
   intros HF Ht. unfold route, synthesized. replace (smem "__exit__" local_attrs) with true by reflexivity.
@@ -277,6 +281,8 @@ Qed.
 Section WorldP.
   Variable imm : Type.
   Variable truthy_imm : imm -> bool.
+  Variable is_ni : imm -> bool.
+  Variable imm_bool : bool -> imm.
   Variable heap : Type.
   Variable apply : act (val imm) -> heap -> oid -> result (val imm) * heap.
   Variable methods : oid -> list string.
@@ -286,16 +292,23 @@ Section WorldP.
 
   Notation value := (val imm).
   Notation Truthy := (truthy imm truthy_imm).
-  Notation Tstep := (t_step imm truthy_imm heap apply methods no_method).
-  Notation Pstep := (p_step imm truthy_imm heap apply methods no_method conf F).
-  Notation Trun := (t_run imm truthy_imm heap apply methods no_method).
-  Notation Prun := (p_run imm truthy_imm heap apply methods no_method conf F).
-  Notation Serves := (owner_serves imm truthy_imm heap apply conf F).
+  Notation Byval := (byval imm).
+  Notation ResNi := (res_ni imm is_ni).
+  Notation Tstep := (t_step imm truthy_imm is_ni imm_bool heap apply methods no_method).
+  Notation Pstep := (p_step imm truthy_imm is_ni imm_bool heap apply methods no_method conf F).
+  Notation Trun := (t_run imm truthy_imm is_ni imm_bool heap apply methods no_method).
+  Notation Prun := (p_run imm truthy_imm is_ni imm_bool heap apply methods no_method conf F).
+  Notation Serves := (owner_serves imm truthy_imm is_ni heap apply conf F).
 
   (* a read that failed with AttributeError fails the same way, without further effect, when asked again *)
   Definition failing_reads_repeatable : Prop :=
     forall n h o h', apply (AGetAttr n) h o = (Raise AttributeError, h') -> apply (AGetAttr n) h' o = (Raise AttributeError, h').
   Definition reads_ok : Prop := f_getattr_repeats F = false \/ failing_reads_repeatable.
+  (* no value's reflected method accepts one of the objects: it declines, without effect (true of lists, dicts, files ...;
+     false of an int subclass, which float.__radd__ accepts) *)
+  Definition reflection_inert : Prop :=
+    forall rd a h o, exists v, apply (AReflected rd (VImm imm a)) h o = (Ok (VImm imm v), h) /\ is_ni v = true.
+  Definition reflection_ok : Prop := f_reflects F = true \/ reflection_inert.
 
   Definition inv (tw : tworld heap) (pw : pworld heap) : Prop :=
     tw_heap heap tw = pw_heap heap pw /\ tw_slots heap tw = pw_slots heap pw
@@ -376,65 +389,132 @@ Section WorldP.
     cbn [export]. destruct (has_oid o2 ex) eqn:E; auto. apply has_oid_in. apply in_or_app. right. now left.
   Qed.
 
-  Lemma step_sim tw pw s : inv tw pw -> step_ok imm truthy_imm conf F s = true -> reads_ok ->
+  Lemma reflect_for_flag {B} (bv : B -> bool) r d l b :
+    reflect_for bv r d l b = if r then reflect_for bv true d l b else None.
+  Proof. unfold reflect_for. destruct l as [|x [|y l]]; destruct (reflected_of d); destruct r; reflexivity. Qed.
+  Lemma serve_reflect_protocol p vs :
+    serve_reflect F Byval (nth_val imm vs) p
+    = if f_reflects F then match protocol_operand imm p vs with Some (_, rd, a) => Some (rd, a) | None => None end else None.
+  Proof.
+    destruct p; cbn [serve_reflect protocol_operand]; try (destruct (f_reflects F); reflexivity).
+    rewrite reflect_for_flag. destruct (f_reflects F); [|reflexivity].
+    destruct (reflect_for Byval true d (map (nth_val imm vs) (positional nargs)) (no_kw_list kw)) as [[rd a]|]; reflexivity.
+  Qed.
+  Lemma protocol_operand_shape p vs d rd a : protocol_operand imm p vs = Some (d, rd, a) ->
+    (exists n k, p = OSpecial d n k) /\ exists x, a = VImm imm x.
+  Proof.
+    destruct p; cbn [protocol_operand]; try discriminate. unfold reflect_for.
+    destruct (map (nth_val imm vs) (positional nargs)) as [|x [|y l]]; try discriminate.
+    destruct (reflected_of d0); try discriminate. cbn [andb]. destruct (no_kw_list kw); try discriminate.
+    destruct x as [v|o|e]; cbn; try discriminate. intros [= <- <- <-]. split; [now exists nargs, kw|now exists v].
+  Qed.
+  Lemma no_fallback_match (r : result value) (h : heap) (fb : option (request nat)) (X : request nat -> result value * heap) :
+    fb = None ->
+    match r, fb with
+    | Raise AttributeError, Some rq2 => X rq2
+    | _, _ => (r, h)
+    end = (r, h).
+  Proof. intros ->. destruct r as [v|e| |]; try reflexivity. destruct e; reflexivity. Qed.
+  Lemma push_give_up slots d : push_ref imm slots (give_up imm imm_bool d) = slots.
+  Proof. unfold give_up. destruct (String.eqb d "__eq__"); [reflexivity|]. destruct (String.eqb d "__ne__"); reflexivity. Qed.
+
+  Lemma step_sim tw pw s : inv tw pw -> step_ok imm truthy_imm conf F s = true -> reads_ok -> reflection_ok ->
     match Tstep tw s, Pstep pw s with
     | Some (r, tw'), Some (r', pw') => r = r' /\ inv tw' pw'
     | None, None => True
     | _, _ => False
     end.
   Proof.
-    intros (Hh & Hs & Hex) Hok Hrep. unfold t_step, p_step. rewrite <- Hs.
+    intros (Hh & Hs & Hex) Hok Hrep Hrefl. unfold t_step, p_step. rewrite <- Hs.
     destruct (nth_error (tw_slots heap tw) (st_target imm s)) as [o|] eqn:Eo; [|trivial].
     destruct (all_some (map (t_operand imm (tw_slots heap tw)) (st_operands imm s))) as [vs|] eqn:Ev; [|trivial].
     unfold step_ok in Hok. apply andb_true_iff in Hok. destruct Hok as [Hok Hexit].
     apply andb_true_iff in Hok. destruct Hok as [Hok Hperm]. apply andb_true_iff in Hok. destruct Hok as [Hfw Hwf].
     rewrite <- (first_truthy_ok _ _ _ Ev) in Hexit.
-    pose proof (routing_faithful F value (nth_val imm vs) Truthy (methods o) (st_op imm s) Hfw Hwf Hexit) as Hfaith.
+    pose proof (routing_faithful F value (nth_val imm vs) Truthy Byval (methods o) (st_op imm s) Hfw Hwf Hexit) as Hfaith.
     unfold faithful in Hfaith.
     assert (Hoex : has_oid o (pw_exported heap pw) = true).
     { apply Hex. rewrite <- Hs. exact (nth_error_In _ _ Eo). }
     assert (Hops : forall i, unbox_s imm (pw_exported heap pw) (box_c imm (nth_val imm vs i)) = Ok (nth_val imm vs i)).
     { apply (operands_unbox (tw_slots heap tw) _ (st_operands imm s)); auto. intros x Hx. apply Hex. now rewrite <- Hs. }
+    assert (Hslots : forall x, In x (tw_slots heap tw) -> has_oid x (pw_exported heap pw) = true).
+    { intros x Hx. apply Hex. now rewrite <- Hs. }
     destruct (route (methods o) (st_op imm s)) as [rq w| | | |] eqn:R; try contradiction.
-    - destruct Hfaith as (sv & Hsv & Hact & Hchk).
+    - destruct Hfaith as (sv & Hsv & Hact & Hchk & Hrf).
       rewrite (send_finds_slot _ _ _ _ R).
       assert (Hserve : forall h, Serves h (pw_exported heap pw) o (rqmap (nth_val imm vs) rq)
-                                 = apply (direct Truthy (nth_val imm vs) (st_op imm s)) h o).
+                                 = let '(r1, h1) := apply (direct Truthy (nth_val imm vs) (st_op imm s)) h o in
+                                   match serve_reflect F Byval (nth_val imm vs) (st_op imm s) with
+                                   | Some (rd, a) => if ResNi r1 then apply (AReflected rd a) h1 o else (r1, h1)
+                                   | None => (r1, h1)
+                                   end).
       { intros h. unfold owner_serves. cbn [unbox_s]. rewrite Hoex. rewrite (traverse_ok _ _ _ Hops). rewrite Hsv.
-        rewrite Hchk, Hperm, Hact. reflexivity. }
-      rewrite Hserve, <- Hh.
+        rewrite Hchk, Hperm, Hact, Hrf. reflexivity. }
+      rewrite Hserve, <- Hh. rewrite serve_reflect_protocol.
       destruct (apply (direct Truthy (nth_val imm vs) (st_op imm s)) (tw_heap heap tw) o) as [r1 h1] eqn:Ea.
-      assert (Hfb : (match r1, fallback F (st_op imm s) with
-                     | Raise AttributeError, Some rq2 => Serves h1 (pw_exported heap pw) o (rqmap (nth_val imm vs) rq2)
-                     | _, _ => (r1, h1) end) = (r1, h1)).
-      { destruct r1 as [v|e| |]; try reflexivity. destruct e; try reflexivity.
-        destruct (fallback F (st_op imm s)) as [rq2|] eqn:Efb; [|reflexivity].
-        destruct (fallback_same F (methods o) _ _ Efb Hfw) as (n & w' & Hop & Hr & Hrepeats).
-        rewrite R in Hr. injection Hr as <- <-. rewrite Hserve.
-        destruct Hrep as [Hrep|Hrep]; [congruence|].
-        rewrite Hop in *. cbn [direct] in *. apply Hrep with (h := tw_heap heap tw). exact Ea. }
-      rewrite Hfb. rewrite reply_id. split; [reflexivity|].
-      unfold inv. cbn [tw_heap tw_slots pw_heap pw_slots pw_exported]. split; [reflexivity|]. split; [reflexivity|].
-      apply inv_push; auto. intros x Hx. apply Hex. now rewrite <- Hs.
+      destruct (protocol_operand imm (st_op imm s) vs) as [[[d rd] a]|] eqn:Ep.
+      + (* a one-operand operator whose operand is a value *)
+        destruct (protocol_operand_shape _ _ _ _ _ Ep) as ((n & k & Hop) & (x & ->)).
+        assert (Hnf : fallback F (st_op imm s) = None) by (rewrite Hop; reflexivity).
+        destruct (f_reflects F) eqn:HF.
+        * (* the owner completes the protocol *)
+          destruct (ResNi r1) eqn:Hn1.
+          -- destruct (apply (AReflected rd (VImm imm x)) h1 o) as [r2 h2] eqn:Ea2.
+             rewrite (no_fallback_match _ _ _ _ Hnf), reply_id.
+             split; [reflexivity|].
+             unfold inv. cbn [tw_heap tw_slots pw_heap pw_slots pw_exported]. split; [reflexivity|]. split; [reflexivity|].
+             destruct (ResNi r2) eqn:Hn2.
+             ++ rewrite push_give_up. intros y Hy. apply export_keeps. auto.
+             ++ apply inv_push. exact Hslots.
+          -- rewrite (no_fallback_match _ _ _ _ Hnf), reply_id. rewrite Hn1.
+             split; [reflexivity|].
+             unfold inv. cbn [tw_heap tw_slots pw_heap pw_slots pw_exported]. split; [reflexivity|]. split; [reflexivity|].
+             apply inv_push; auto.
+        * (* the caller's interpreter is left with the proxy *)
+          rewrite (no_fallback_match _ _ _ _ Hnf), reply_id.
+          destruct (ResNi r1) eqn:Hn1.
+          -- destruct Hrefl as [Hrefl|Hrefl]; [congruence|].
+             destruct (Hrefl rd x h1 o) as (v & Ea2 & Hv). rewrite Ea2. cbn [res_ni]. rewrite Hv.
+             split; [reflexivity|].
+             unfold inv. cbn [tw_heap tw_slots pw_heap pw_slots pw_exported]. split; [reflexivity|]. split; [reflexivity|].
+             rewrite push_give_up. intros y Hy. apply export_keeps. auto.
+          -- split; [reflexivity|].
+             unfold inv. cbn [tw_heap tw_slots pw_heap pw_slots pw_exported]. split; [reflexivity|]. split; [reflexivity|].
+             apply inv_push; auto.
+      + (* everything else: one action *)
+        replace (if f_reflects F then @None (string * value) else None) with (@None (string * value)) by (destruct (f_reflects F); reflexivity).
+        assert (Hfb : (match r1, fallback F (st_op imm s) with
+                       | Raise AttributeError, Some rq2 => Serves h1 (pw_exported heap pw) o (rqmap (nth_val imm vs) rq2)
+                       | _, _ => (r1, h1) end) = (r1, h1)).
+        { destruct r1 as [v|e| |]; try reflexivity. destruct e; try reflexivity.
+          destruct (fallback F (st_op imm s)) as [rq2|] eqn:Efb; [|reflexivity].
+          destruct (fallback_same F (methods o) _ _ Efb Hfw) as (n & w' & Hop & Hr & Hrepeats).
+          rewrite R in Hr. injection Hr as <- <-. rewrite Hserve. rewrite serve_reflect_protocol, Ep.
+          replace (if f_reflects F then @None (string * value) else None) with (@None (string * value)) by (destruct (f_reflects F); reflexivity).
+          destruct Hrep as [Hrep|Hrep]; [congruence|].
+          rewrite Hop in *. cbn [direct] in *. rewrite (Hrep _ _ _ _ Ea). reflexivity. }
+        rewrite Hfb. rewrite reply_id. split; [reflexivity|].
+        unfold inv. cbn [tw_heap tw_slots pw_heap pw_slots pw_exported]. split; [reflexivity|]. split; [reflexivity|].
+        apply inv_push; auto.
     - destruct Hfaith as (d & n & k & Hop & Hms & Hb).
       assert (Hfs : finds_slot methods o (st_op imm s) = false).
       { rewrite Hop. unfold finds_slot, has_method, always_present. now rewrite Hb, Hms. }
       rewrite Hfs. split; [reflexivity|]. destruct pw as [ph pe ps]. cbn in *. subst. repeat split; auto.
   Qed.
 
-  Theorem run_sim steps : forall tw pw, inv tw pw -> forallb (step_ok imm truthy_imm conf F) steps = true -> reads_ok ->
+  Theorem run_sim steps : forall tw pw, inv tw pw -> forallb (step_ok imm truthy_imm conf F) steps = true -> reads_ok -> reflection_ok ->
     match Trun tw steps, Prun pw steps with
     | Some (rs, tw'), Some (rs', pw') => rs = rs' /\ inv tw' pw'
     | None, None => True
     | _, _ => False
     end.
   Proof.
-    induction steps as [|s steps IH]; intros tw pw Hinv Hok Hrep.
+    induction steps as [|s steps IH]; intros tw pw Hinv Hok Hrep Hrefl.
     - cbn. split; auto.
     - cbn [forallb] in Hok. apply andb_true_iff in Hok. destruct Hok as [Hs Hrest].
-      cbn [t_run p_run]. pose proof (step_sim tw pw s Hinv Hs Hrep) as H1.
+      cbn [t_run p_run]. pose proof (step_sim tw pw s Hinv Hs Hrep Hrefl) as H1.
       destruct (Tstep tw s) as [[r tw1]|]; destruct (Pstep pw s) as [[r' pw1]|]; try contradiction; [|trivial].
-      destruct H1 as [<- Hinv1]. specialize (IH tw1 pw1 Hinv1 Hrest Hrep).
+      destruct H1 as [<- Hinv1]. specialize (IH tw1 pw1 Hinv1 Hrest Hrep Hrefl).
       destruct (Trun tw1 steps) as [[rs tw2]|]; destruct (Prun pw1 steps) as [[rs' pw2]|]; try contradiction; [|trivial].
       destruct IH as [<- Hinv2]. split; auto.
   Qed.
@@ -453,21 +533,22 @@ Section WorldP.
     destruct (nth_error (pw_slots heap pw) (st_target imm s)) as [o|] eqn:Eo; [|trivial].
     destruct (all_some (map (t_operand imm (pw_slots heap pw)) (st_operands imm s))) as [vs|] eqn:Ev; [|trivial].
     rewrite <- (first_truthy_ok _ _ _ Ev) in Hexit.
-    pose proof (routing_faithful F value (nth_val imm vs) Truthy (methods o) (st_op imm s) Hfw Hwf Hexit) as Hfaith.
+    pose proof (routing_faithful F value (nth_val imm vs) Truthy Byval (methods o) (st_op imm s) Hfw Hwf Hexit) as Hfaith.
     unfold faithful in Hfaith.
     assert (Hoex : has_oid o (pw_exported heap pw) = true) by (apply Hex; exact (nth_error_In _ _ Eo)).
     assert (Hops : forall i, unbox_s imm (pw_exported heap pw) (box_c imm (nth_val imm vs i)) = Ok (nth_val imm vs i)).
     { apply (operands_unbox (pw_slots heap pw) _ (st_operands imm s)); auto. }
     destruct (route (methods o) (st_op imm s)) as [rq w| | | |] eqn:R; try contradiction.
-    - destruct Hfaith as (sv & Hsv & Hact & Hchk).
+    - destruct Hfaith as (sv & Hsv & Hact & Hchk & _).
       assert (Hserve : forall h, Serves h (pw_exported heap pw) o (rqmap (nth_val imm vs) rq) = (Raise AttributeError, h)).
       { intros h. unfold owner_serves. cbn [unbox_s]. rewrite Hoex. rewrite (traverse_ok _ _ _ Hops). rewrite Hsv.
         rewrite Hchk, Hperm. reflexivity. }
       rewrite Hserve.
       destruct (fallback F (st_op imm s)) as [rq2|] eqn:Efb.
       + destruct (fallback_same F (methods o) _ _ Efb Hfw) as (n & w' & Hop & Hr & _).
-        rewrite R in Hr. injection Hr as <- <-. rewrite Hserve. cbn. split; [eexists; reflexivity|]. split; reflexivity.
-      + cbn. split; [eexists; reflexivity|]. split; reflexivity.
+        rewrite R in Hr. injection Hr as <- <-. rewrite Hserve.
+        destruct (protocol_operand imm (st_op imm s) vs) as [[[d rd] a]|]; cbn; (split; [eexists; reflexivity|]); split; reflexivity.
+      + destruct (protocol_operand imm (st_op imm s) vs) as [[[d rd] a]|]; cbn; (split; [eexists; reflexivity|]); split; reflexivity.
     - split; [eexists; reflexivity|]. split; reflexivity.
   Qed.
 End WorldP.
@@ -481,10 +562,12 @@ Lemma failing_read_runs_twice F : f_getattr_repeats F = true ->
   let tw := {| tw_heap := 0%nat; tw_slots := [0%nat] |} in
   let pw := {| pw_heap := 0%nat; pw_exported := [0%nat]; pw_slots := [0%nat] |} in
   step_ok unit (fun _ => true) conf_classic F w_step_read = true /\
-  option_map (fun x => tw_heap nat (snd x)) (t_run unit (fun _ => true) nat w_apply_count (fun _ => []) (fun _ => TypeError) tw [w_step_read]) = Some 1%nat /\
-  option_map (fun x => pw_heap nat (snd x)) (p_run unit (fun _ => true) nat w_apply_count (fun _ => []) (fun _ => TypeError) conf_classic F pw [w_step_read]) = Some 2%nat.
+  option_map (fun x => tw_heap nat (snd x))
+             (t_run unit (fun _ => true) (fun _ => false) (fun _ => tt) nat w_apply_count (fun _ => []) (fun _ => TypeError) tw [w_step_read]) = Some 1%nat /\
+  option_map (fun x => pw_heap nat (snd x))
+             (p_run unit (fun _ => true) (fun _ => false) (fun _ => tt) nat w_apply_count (fun _ => []) (fun _ => TypeError) conf_classic F pw [w_step_read]) = Some 2%nat.
 Proof.
-  destruct F as [a b]. cbn [f_getattr_repeats]. intros ->. cbv zeta. split; [reflexivity|]. split; reflexivity.
+  destruct F as [a b c]. cbn [f_getattr_repeats]. intros ->. cbv zeta. split; [reflexivity|]. split; reflexivity.
 Qed.
 
 Definition w_apply_log (a : act (val unit)) (h : list (told (val unit))) (o : oid) : result (val unit) * list (told (val unit)) :=
@@ -494,12 +577,50 @@ Definition w_step_exit : step unit :=
 Lemma exit_told_type_error F : f_ctxexit_delivers F = false ->
   let tw := {| tw_heap := []; tw_slots := [0%nat] |} in
   let pw := {| pw_heap := []; pw_exported := [0%nat]; pw_slots := [0%nat] |} in
-  option_map (fun x => tw_heap _ (snd x)) (t_run unit (fun _ => true) _ w_apply_log (fun _ => ["__exit__"]) (fun _ => TypeError) tw [w_step_exit])
+  option_map (fun x => tw_heap _ (snd x))
+             (t_run unit (fun _ => true) (fun _ => false) (fun _ => tt) _ w_apply_log (fun _ => ["__exit__"]) (fun _ => TypeError) tw [w_step_exit])
     = Some [TClass (VExc unit ValueError)] /\
-  option_map (fun x => pw_heap _ (snd x)) (p_run unit (fun _ => true) _ w_apply_log (fun _ => ["__exit__"]) (fun _ => TypeError) conf_classic F pw [w_step_exit])
+  option_map (fun x => pw_heap _ (snd x))
+             (p_run unit (fun _ => true) (fun _ => false) (fun _ => tt) _ w_apply_log (fun _ => ["__exit__"]) (fun _ => TypeError) conf_classic F pw [w_step_exit])
     = Some [TTypeError].
 Proof.
-  destruct F as [a b]. cbn [f_ctxexit_delivers]. intros ->. cbv zeta. split; reflexivity.
+  destruct F as [a b c]. cbn [f_ctxexit_delivers]. intros ->. cbv zeta. split; reflexivity.
+Qed.
+
+(* a number-like target: values are numbers (None stands for NotImplemented); the object holds an integer, its own __add__
+   declines anything but integers below 100, while the reflected method of a "float" (>= 100) accepts it: MyInt(3) + 5.0 *)
+Definition w_apply_num (a : act (val (option nat))) (h : nat) (o : oid) : result (val (option nat)) * nat :=
+  match a with
+  | ACallAttr "__add__" [VImm _ (Some n)] [] => (Ok (VImm _ (if Nat.ltb n 100 then Some (h + n)%nat else None)), h)
+  | ATypeCall "__eq__" (VImm _ (Some n)) => (Ok (VImm _ (if Nat.ltb n 100 then Some (if Nat.eqb h n then 1 else 0)%nat else None)), h)
+  | AReflected "__radd__" (VImm _ (Some n)) => (Ok (VImm _ (Some (n + h)%nat)), h)
+  | AReflected "__eq__" (VImm _ (Some n)) => (Ok (VImm _ (Some (if Nat.eqb (n - 100) h then 1 else 0)%nat)), h)
+  | _ => (Raise TypeError, h)
+  end.
+Definition w_ni (v : option nat) : bool := match v with None => true | _ => false end.
+Definition w_bool (b : bool) : option nat := Some (if b then 1 else 0)%nat.
+Definition w_steps_num : list (step (option nat)) :=
+  [ {| st_target := 0; st_op := OSpecial "__add__" 1 []; st_operands := [PImm _ (Some 5%nat)] |};       (* x + 5   : the target's own method *)
+    {| st_target := 0; st_op := OSpecial "__add__" 1 []; st_operands := [PImm _ (Some 105%nat)] |};     (* x + 5.0 : declined, reflected *)
+    {| st_target := 0; st_op := OSpecial "__eq__" 1 []; st_operands := [PImm _ (Some 103%nat)] |} ].    (* x == 3.0 *)
+Lemma reflection_lost F : f_reflects F = false ->
+  let tw := {| tw_heap := 3%nat; tw_slots := [0%nat] |} in
+  let pw := {| pw_heap := 3%nat; pw_exported := [0%nat]; pw_slots := [0%nat] |} in
+  forallb (step_ok (option nat) (fun _ => true) conf_classic F) w_steps_num = true /\
+  option_map fst (t_run _ (fun _ => true) w_ni w_bool nat w_apply_num (fun _ => ["__add__"]) (fun _ => TypeError) tw w_steps_num)
+    = Some [Ok (VImm _ (Some 8%nat)); Ok (VImm _ (Some 108%nat)); Ok (VImm _ (Some 1%nat))] /\
+  option_map fst (p_run _ (fun _ => true) w_ni w_bool nat w_apply_num (fun _ => ["__add__"]) (fun _ => TypeError) conf_classic F pw w_steps_num)
+    = Some [Ok (VImm _ (Some 8%nat)); Raise TypeError; Ok (VImm _ (Some 0%nat))].
+Proof.
+  destruct F as [a b c]. cbn [f_reflects]. intros ->. cbv zeta. split; [reflexivity|]. split; reflexivity.
+Qed.
+Lemma reflection_kept F : f_reflects F = true ->
+  let tw := {| tw_heap := 3%nat; tw_slots := [0%nat] |} in
+  let pw := {| pw_heap := 3%nat; pw_exported := [0%nat]; pw_slots := [0%nat] |} in
+  option_map fst (p_run _ (fun _ => true) w_ni w_bool nat w_apply_num (fun _ => ["__add__"]) (fun _ => TypeError) conf_classic F pw w_steps_num)
+  = option_map fst (t_run _ (fun _ => true) w_ni w_bool nat w_apply_num (fun _ => ["__add__"]) (fun _ => TypeError) tw w_steps_num).
+Proof.
+  destruct F as [a b c]. cbn [f_reflects]. intros ->. cbv zeta. reflexivity.
 Qed.
 
 (* ------------------------------------------------------------------ 3. buffered iteration *)
@@ -547,3 +668,55 @@ Section BuffP.
   Proof. intros H. unfold buffiter. destruct (Z.ltb_spec factor 1); [lia|]. reflexivity. Qed.
 End BuffP.
 
+
+(* ------------------------------------------------------------------ 4. class queries *)
+
+(* a class the caller cannot find by name: p.__class__ is an ordinary forwarded read of "__class__" -- which classic permits and the
+   other two configurations refuse *)
+Lemma class_query_unknown F A (f : nat -> A) truthy byval :
+  exists rq sv, class_query_route false = CAAsk rq /\ serve_request F truthy byval (rqmap f rq) = Ok sv
+    /\ sv_act sv = direct truthy f (OGetAttr "__class__") /\ sv_checks sv = [(PGet, "__class__")]
+    /\ permitted conf_classic (sv_checks sv) = true /\ permitted conf_public (sv_checks sv) = false
+    /\ permitted conf_default (sv_checks sv) = false.
+Proof. do 2 eexists. split; [reflexivity|]. split; [reflexivity|]. repeat split; reflexivity. Qed.
+
+Section ClassByName.
+  Variable cls : Type.
+  Variable name_of : cls -> string.             (* module-qualified name *)
+  Variable callers : string -> option cls.      (* what the caller finds under a name (sys.modules) *)
+  Hypothesis callers_by_name : forall n c, callers n = Some c -> name_of c = n.
+  (* the answer of a class query for a target of class t, when the caller has a class of that name *)
+  Definition class_query_by_name (t : cls) : option cls := callers (name_of t).
+  (* right whenever a name means one class on both sides *)
+  Lemma class_query_right : (forall c c', name_of c = name_of c' -> c = c') ->
+    forall t c, class_query_by_name t = Some c -> c = t.
+  Proof. intros Hinj t c H. apply Hinj. now apply callers_by_name in H. Qed.
+End ClassByName.
+(* and wrong as soon as two classes share a name (a class factory, type(name, ...), a re-definition, another version of a module) *)
+Lemma class_query_wrong_for_namesakes :
+  exists (name_of : bool -> string) (callers : string -> option bool),
+    (forall n c, callers n = Some c -> name_of c = n) /\ class_query_by_name bool name_of callers true = Some false.
+Proof. exists (fun _ => "m.C"), (fun n => if String.eqb n "m.C" then Some false else None). split; [|reflexivity].
+  intros n c. destruct (String.eqb n "m.C") eqn:E; [|discriminate]. apply String.eqb_eq in E. now subst. Qed.
+
+(* isinstance(other, p) *)
+Lemma instancecheck_cases asks resolved :
+  (* p is not the proxy of a class: TypeError, as for any non-class second argument *)
+  (forall a b c, instancecheck_route asks resolved a false b c = ICRaiseTypeError)
+  (* other is a proxy of an instance of exactly p's class / of the class itself *)
+  /\ instancecheck_route asks resolved true true true false = ICTrue
+  /\ instancecheck_route asks resolved true true true true = ICFalse
+  (* other is a proxy of something of another class: the owner is asked (HANDLE_INSTANCECHECK; its handler is not modelled) *)
+  /\ (forall c, instancecheck_route asks resolved true true false c = ICSync "HANDLE_INSTANCECHECK")
+  (* other is the caller's own: checked against the caller's class of that name, if there is one *)
+  /\ (forall b c, instancecheck_route asks true false true b c = ICLocalIsinstance).
+Proof. repeat split; intros; try reflexivity. destruct a; reflexivity. Qed.
+(* the caller has no class of that name: on the pinned tree the check dies with AttributeError instead of answering; on a tree
+   that asks the owner it is the forwarded call type(C).__instancecheck__(C, other) *)
+Lemma instancecheck_unknown_class_refuted : forall b c, instancecheck_route false false false true b c = ICAttributeError.
+Proof. reflexivity. Qed.
+Lemma instancecheck_unknown_class_asks F A (f : nat -> A) truthy byval b c :
+  instancecheck_route true false false true b c = ICSync "HANDLE_CALLATTR"
+  /\ exists sv, serve_request F truthy byval (rqmap f {| rq_handler := "HANDLE_CALLATTR"; rq_args := [WStr "__instancecheck__"; WTuple [0%nat]; WKw []] |}) = Ok sv
+       /\ sv_act sv = ACallAttr "__instancecheck__" [f 0%nat] [] /\ sv_checks sv = [(PGet, "__instancecheck__")].
+Proof. split; [reflexivity|]. eexists. split; [reflexivity|]. split; reflexivity. Qed.
